@@ -44,8 +44,11 @@ def strategy(tier):
                             step_op_ok=True)
 
 
-def live_instances(engine):
-    """{abs path: id(instance)} of every process/step in the hierarchy."""
+def live_instances(engine, keep=None):
+    """{abs path: id(instance)} of every process/step in the hierarchy.
+    Every instance seen is appended to `keep`: an instance that is never
+    invoked (its interval never fitted into a call before it was deleted) would
+    otherwise be freed and its id could be taken by a later instance."""
     from vivarium.core.process import Process
     out = {}
 
@@ -53,6 +56,8 @@ def live_instances(engine):
         for k, child in store.inner.items():
             if isinstance(child.value, Process):
                 out[path + (k,)] = id(child.value)
+                if keep is not None:
+                    keep.append(child.value)
             else:
                 walk(child, path + (k,))
     walk(engine.state, ())
@@ -140,14 +145,14 @@ def run_case(spec):
                 super().emit(data)
                 if data.get('table') == 'history' and holder.get('engine'):
                     lives.append((len(ctx.log), data['data'].get('time'),
-                                  live_instances(holder['engine'])))
+                                  live_instances(holder['engine'], ctx.keep)))
         from vivarium.core.registry import emitter_registry
         emitter_registry.registry['vv-spy'] = Spy
         engine = Engine(composite=composite, display_info=False,
                         emitter={'type': 'vv-spy', 'run_id': ctx.run_id})
         ctx.engine = engine
         holder['engine'] = engine
-        lives.append((len(ctx.log), 0, live_instances(engine)))
+        lives.append((len(ctx.log), 0, live_instances(engine, ctx.keep)))
         if not check_published(res, engine, composite, 'after construction'):
             return res
         nt = len(spec['ticks'])
@@ -278,8 +283,9 @@ def check_invocations(spec, res, ctx, lives, engine):
     # process schedules
     final = engine.global_time
     tsof = {}
+    invoked = {ev[4] for ev in ctx.log if ev[0] == 'invoke'}
     for obj in ctx.keep:
-        if isinstance(obj, kit.AgentProc):
+        if isinstance(obj, kit.AgentProc) and id(obj) in invoked:
             tsof[id(obj)] = obj.parameters['timestep']
     for life in lives_all:
         path, ident, b = life['path'], life['ident'], life['birth']
